@@ -12,7 +12,7 @@ from .c01 import shape_sig
 
 PROP = 'C04'
 LEVEL = 'exploration'
-N = {'quick': 7500, 'thorough': 100000}
+N = {'quick': 6500, 'thorough': 100000}
 RULE = ('seeded worlds biased to channels absent from segments, multi-chunk segments, zero-length chunks, '
         'interleaved layout and (20%) a cut inside the last segment; per world an explicit list of '
         'read_data(offset,length) windows (all windows for channels of <=24 values in the thorough tier, '
